@@ -30,7 +30,9 @@ VALUE_TABLE = {
               "near": ["abc", "1,5", 3, False]},
     "boolean": {"good": [True, False], "text": ["true", "False", "1", "0", "t", "F"],
                 "near": ["yes", "2", 2, "maybe", 0, 1]},
-    "string": {"good": ["a", "hello world", "ünï", "x,y", "[br]acket"], "text": ["s"],
+    "string": {"good": ["a", "hello world", "ünï", "x,y", "[br]acket"],
+               # text that looks like another dtype (the string-dtype hint of the validation)
+               "text": ["s", "17", "2.5", "true", "2020-01-02", "12:34:56", "-3"],
                "near": [1, 2.5, True, "  padded  "]},
     "text": {"good": ["line1\nline2", "plain"], "text": ["t\nu"], "near": [5]},
     "url": {"good": ["http://x.org/a"], "text": ["file:///tmp/x"], "near": [7]},
@@ -852,3 +854,33 @@ def g_hold_values(self):
 
 
 Gen.g_hold_values = g_hold_values
+
+
+LOOKALIKES = {"int": ["17", "-3", "0"], "float": ["2.5", "-0.5"], "date": ["2020-01-02"],
+              "time": ["12:34:56", "01:02"], "boolean": ["True", "t"], "datetime": ["2020-01-02 03:04"],
+              "tuple": ["(1;2)"], "text": ["a\nb"]}
+
+
+def g_lookalike_prop(self):
+    """A string Property all of whose values look like other dtypes, several kinds equally often
+    (the string-dtype hint of the default validation has to settle a tie)."""
+    secs = self.secs()
+    if not secs or not self.room():
+        return None
+    t = self.pick(secs)
+    free = [n for n in FRESH if not any(p.name == n for p in t.properties)]
+    if not free:
+        return None
+    kinds = sorted(LOOKALIKES)
+    self.rng.shuffle(kinds)
+    kinds = kinds[:self.rng.randint(1, 3)]
+    reps = self.rng.randint(1, 2)
+    vals = [self.pick(LOOKALIKES[k]) for k in kinds for _ in range(reps)]
+    if self.chance(0.15):
+        vals.append("plain words")
+    self.rng.shuffle(vals)
+    return {"op": "create_property", "t": self.ref(t), "name": self.pick(free), "dtype": "string",
+            "values": {"list": vals}}
+
+
+Gen.g_lookalike_prop = g_lookalike_prop
